@@ -29,7 +29,7 @@ ASSUMPTIONS = [
     "tasks / timers created by the harness (user-call runners, the scenario driver) are excluded by identity; every other live task or pending TimerHandle belongs to the client",
 ]
 PROBES = ["c15.during_connect_latency", "c15.during_backoff", "c15.mid_handshake", "c15.message_pending", "c15.at_heartbeat", "c15.after_fault",
-          "c15.reinit", "c15.reinit_changed_installation", "c15.socket_class", "c15.shutdown_twice", "c15.quick_reinit_with_pending", "c15.heartbeat_after_reinit", "c15.during_slow_reset", "c15.during_blocked_write"]
+          "c15.reinit", "c15.reinit_changed_installation", "c15.socket_class", "c15.shutdown_twice", "c15.quick_reinit_with_pending", "c15.heartbeat_after_reinit", "c15.during_slow_reset", "c15.during_blocked_write", "c15.heartbeat_during_slow_close"]
 
 
 def budget(tier: str) -> int:
@@ -74,6 +74,15 @@ def generate(rng, index: int, tier: str) -> dict:
         fates = [{"kind": "accept", "latency": 0.0}]
         k = rng.choice([1, 2])
         t_s = G.pick_time(rng, 300.0 * k - 1.0, 300.0 * k + 31.0, anchors=[300.0 * k + 6 * 2 * lat, 300.0 * k + 30.0])
+        if not sock and rng.random() < 0.35:
+            # the heartbeat instant falls inside a shutdown that cannot finish at once: unflushed bytes under flow control,
+            # the transport only goes away when the peer resets it
+            t_s = 300.0 * k - 1.0
+            tl.append({"at": t_s - 2.0, "op": "net.stall", "on": True})
+            tl.append({"at": t_s - 1.5, "op": "user.api", "target": ["at"], "call": "check_for_updates", "args": {}})
+            tl.append({"at": t_s + rng.choice([3.0, 12.0, 40.0]), "op": "net.rst"})
+            tl.append({"at": t_s + 50.0, "op": "net.stall", "on": False})
+            info["heartbeat_during_slow_close"] = True
     else:
         fates = [{"kind": "accept", "latency": 0.0}]
         t_s = G.dyadic(rng, 6.0, 20.0)
@@ -142,6 +151,8 @@ def generate(rng, index: int, tier: str) -> dict:
         idle = 10.0
     if info.get("blocked_write") and rng.random() < 0.7:
         idle = rng.choice([2.0, 10.0])
+    if info.get("heartbeat_during_slow_close") and idle < 100.0:
+        idle = 100.0
     t_idle_end = t_s + idle
     info["idle"] = idle
     # sending after shutdown must raise the not-open error
@@ -199,6 +210,8 @@ def execute(sc: dict) -> dict:
     for st in sc["timeline"]:
         if st["op"] == "net.stall":
             stalled_until = float("inf") if st.get("on", True) else st["at"]
+    if stalled_until >= sc.get("end", 0.0) - 1.0:
+        stalled_until = float("inf")  # the window is still closed when the run ends
     if stop["t_ret"] is None:
         if stalled_until == float("inf"):
             return common.result(w, V, nontrivial=False, probes=probes)
@@ -253,6 +266,8 @@ def execute(sc: dict) -> dict:
         probes["c15.during_slow_reset"] = 1
     if info.get("blocked_write"):
         probes["c15.during_blocked_write"] = 1
+    if info.get("heartbeat_during_slow_close"):
+        probes["c15.heartbeat_during_slow_close"] = 1
     if info.get("twice"):
         probes["c15.shutdown_twice"] = 1
     if info.get("where") == "pending" and info.get("idle", 1000.0) < 20.0 and info.get("reinit"):
@@ -345,7 +360,9 @@ def execute(sc: dict) -> dict:
                         V.append(viol("C15.duplicate_heartbeat_after_reinit", {"reinit_done": t_h, "version_requests": vr[:8]}))
                     if gen == 4 and not V:
                         gr = [e["t"] for e in w.console.rx if e["reading"]["kind"] == "group_status_request" and e["t"] > t_h + 1.0]
-                        if not any(abs(t - (t_h + 300.0)) < 0.5 for t in gr):
+                        # 300 s after the last group status the re-initialised client received (normally the handshake's)
+                        arr = [x["t"] for x in w.console.tx if x["kind"] == "group_status" and x["t"] >= reopen["t_call"]]
+                        if not any(abs(t - (a + 300.0)) < 0.5 for t in gr for a in arr + [t_h]):
                             V.append(viol("C15.no_group_poll_after_reinit", {"reinit_done": t_h, "group_requests": gr[:6]}))
                         elif len(gr) > 2:
                             V.append(viol("C15.duplicate_group_poll_after_reinit", {"group_requests": gr[:8]}))
